@@ -230,14 +230,18 @@ func runC04(c *report.Ctx) {
 		invokeFlowI + "RuntimeResponse":      {"L/core.RuntimeInvocationErrorResponseState.ResponseSent", "L/core.RuntimeInvocationResponseState.ResponseSent"},
 		invokeFlowI + "RuntimeReady":         {"L/core.RuntimeResponseSentState.Ready"},
 		invokeFlowI + "AgentReady":           {"L/core.ExternalAgentRunningState.Ready", "L/core.InternalAgentRunningState.Ready"},
-		invokeFlowI + "AwaitRuntimeResponse": {"L/rapid.doInvoke$1$2"},
-		invokeFlowI + "AwaitRuntimeReady":    {"L/rapid.doInvoke$1$3"},
-		invokeFlowI + "AwaitAgentsReady":     {"L/rapid.doInvoke$1"},
-		invokeFlowI + "SetAgentsReadyCount":  {"L/rapid.doInvoke$1"},
-		invokeFlowI + "InitializeBarriers":   {"L/rapid.doInvoke$1"},
+		invokeFlowI + "AwaitRuntimeResponse": {"L/rapid.doInvoke"}, // (in closures of doInvoke; the table names the declared function)
+		invokeFlowI + "AwaitRuntimeReady":    {"L/rapid.doInvoke"},
+		invokeFlowI + "AwaitAgentsReady":     {"L/rapid.doInvoke"},
+		invokeFlowI + "SetAgentsReadyCount":  {"L/rapid.doInvoke"},
+		invokeFlowI + "InitializeBarriers":   {"L/rapid.doInvoke"},
 	}
 	for callee, w := range want {
 		got := siteFns(callSites(c, callee))
+		for i := range got {
+			got[i] = stripAnon(got[i])
+		}
+		got = uniq(got)
 		c.Check("R-WHO", "invoke-gates/"+strings.TrimPrefix(callee, "L/core."), "the invoke barriers are re-armed, sized, awaited and walked through only by the documented parties", strings.Join(got, ",") == strings.Join(w, ","), token.NoPos, len(got), "callers: %v", got)
 	}
 	c.Clause("5 re-arm")
